@@ -365,6 +365,41 @@ impl<'a> UGen<'a> {
     }
 }
 
+/// A well-formed update with one illegal term planted at a random quad and position (any
+/// quad of the block, also inside GRAPH blocks and in the graph position): the request must
+/// be refused as a whole.
+pub fn plant_illegal(r: &mut Rng, u: &Upd) -> Option<(Upd, &'static str)> {
+    fn plant(r: &mut Rng, qs: &mut [QT], allow_var: bool, allow_blank: bool) -> Option<&'static str> {
+        if qs.is_empty() {
+            return None;
+        }
+        let j = r.below(qs.len());
+        let pos = r.below(4);
+        // blank nodes are terms only in subject / object position
+        let blank = allow_blank && (pos == 0 || pos == 2) && (!allow_var || r.coin());
+        if !blank && !allow_var {
+            return None;
+        }
+        let t = if blank { TT::Blank("planted".into()) } else { TT::Var("planted".into()) };
+        match pos {
+            0 => qs[j].s = t,
+            1 => qs[j].p = t,
+            2 => qs[j].o = t,
+            _ => qs[j].graph = Some(t),
+        }
+        Some(if blank { "blank node planted in a delete block" } else { "variable planted in a DATA block" })
+    }
+    let mut u2 = u.clone();
+    let why = match &mut u2 {
+        Upd::InsertData(q) => plant(r, q, true, false),
+        Upd::DeleteData(q) => plant(r, q, true, true),
+        Upd::DeleteWhere { del, .. } | Upd::DeleteInsertWhere { del, .. } => plant(r, del, false, true),
+        Upd::DeleteWhereShort(q) => plant(r, q, false, true),
+        Upd::InsertWhere { .. } => None,
+    }?;
+    Some((u2, why))
+}
+
 /// A request that must be rejected by the strict update entry point, with the reason.
 pub fn gen_rejected(r: &mut Rng, state: &Dataset) -> (String, &'static str) {
     let e = |i: usize| format!("<{}>", crate::ds::ent(i));
